@@ -32,13 +32,16 @@ def run(ctx):
                        "TLC 1.8 and CommunityModules Json/IOUtils are correct",
                        "byte identity of yielded packets is checked by slicing the input at the offsets the "
                        "specification emits (contents are not sent through TLC for large packets)"]
-    consts = {"TrimAt": 5, "DefaultSock": 4, "AsIs": "FALSE", "DataLens": tla_set([1, 2, 3] if q else [1, 2, 5]),
+    consts = {"TrimAt": 5, "DefaultSock": 4, "AsIs": "FALSE", "Eager": "FALSE", "DataLens": tla_set([1, 2, 3] if q else [1, 2, 5]),
               "MaxPackets": 3 if q else 4, "Skips": tla_set([0, 2] if q else [0, 1, 4]),
               "RSizes": tla_set([0, 1, 2, 5, 7, 9]), "GarbageLen": 0, "GarbageAlphabet": "{0}", "WithCuts": "FALSE"}
     fc.model_check(ctx, consts, need_giveup=False, tag="wellformed")
     # larger packets: two-byte length field, 300-byte data
     consts2 = dict(consts, DataLens=tla_set([1, 300]), MaxPackets=2, RSizes=tla_set([0, 256] if q else [0, 7, 256, 307]), Skips=tla_set([0, 3]))
     fc.model_check(ctx, consts2, need_giveup=False, tag="len16")
+    # refill policy free (read-ahead at any point): the properties must not depend on when reads happen
+    consts3 = dict(consts, Eager="TRUE", MaxPackets=2, RSizes=tla_set([0, 2, 7]), Skips=tla_set([0, 2]))
+    fc.model_check(ctx, consts3, need_giveup=False, tag="eager-policy", extra_actions=["ReadAhead"])
     ctx.exhaustive = True
 
     # ---- A: spec -> code
@@ -92,9 +95,13 @@ def run(ctx):
     ntrim = sum(1 for r in big for e in r[4] if e["ev"] == "trim")
     ctx.extra["trim_events_observed"] = ntrim
     if ntrim == 0:
-        from harness import core
-        raise core.MachineryError("the 21 MB stream did not reach the trim branch (hook missing?)")
+        ctx.vacuity("the 21 MB stream did not reach the trim branch (hook missing?)")
     fc.validate_traces(ctx, "C02", big, "trim")
+
+    # internal accounting drift (hook `parsed` vs bytes actually consumed) is not a verdict, but it is amplified
+    # into an observable witness when one exists: K identical packets such that the drifting counter hits the
+    # total early (sized sources stop on `parsed == total`).
+    _amplify_drift(ctx, runs, packets, rng)
 
     # mission files (first N packets' worth of bytes), several read sizes
     import glob
@@ -112,6 +119,38 @@ def run(ctx):
     fc.validate_traces(ctx, "C02", mruns, "mission")
     ctx.sample({"direction": "code->spec", "label": runs[0][5]["label"], "kind": runs[0][1], "rsize": runs[0][2],
                 "skip": runs[0][3], "bytes": len(runs[0][0]), "events": runs[0][4][:8]}, limit=5)
+
+
+def _amplify_drift(ctx, runs, packets, rng):
+    from math import gcd
+    tried = set()
+    witnesses = []
+    for data, kind, rsize, skip, ev, meta in runs:
+        if kind == "sock":
+            continue
+        consumed = 0
+        for i, e in enumerate(ev):
+            if e["ev"] == "yield":
+                consumed += skip + e["n"]
+            elif e["ev"] == "emit":
+                n = e["n"]
+                true_inc = skip + n
+                prev = [x for x in ev[:i] if x["ev"] == "emit"]
+                obs_inc = e["parsed"] - (prev[-1]["parsed"] if prev else 0)
+                if obs_inc != true_inc and obs_inc > 0 and (skip, n, obs_inc) not in tried and n <= 300:
+                    tried.add((skip, n, obs_inc))
+                    ctx.tally("accounting_drift_seen")
+                    g = gcd(obs_inc, true_inc)
+                    K, j = obs_inc // g, true_inc // g
+                    if j < K <= 4000:
+                        witnesses.append((skip, n, K))
+    wr = []
+    for skip, n, K in witnesses[:20]:
+        data = _mk_stream(rng, packets, [n - 6] * K, skip)
+        for kind in ("bytes", "file"):
+            wr.append(fc.record(data, kind, 0, skip, rng, K + 2, f"drift-witness-skip{skip}-n{n}-K{K}"))
+    if wr:
+        fc.validate_traces(ctx, "C02", wr, "drift-witness")
 
 
 def replay(ctx, obj):
